@@ -222,6 +222,14 @@ func (p *Prop) Execute(c *sim.Case, env *sim.Env) *sim.Result {
 		}
 	}
 	totalSteps := 0
+	// a bound that only stops non-termination: generous, and growing with the size of the
+	// file (a page with a megabyte of drawing legitimately costs tens of millions of steps,
+	// more through several filters and the layout analysis on top)
+	size := 0
+	for _, cm := range commits {
+		size += len(cm)
+	}
+	stepBudget := int64(50_000_000) + 600*int64(size)
 	for rev := range commits {
 		env.Disk.Append(path, commits[rev])
 		if rev < len(plainGen.Commits) {
@@ -232,7 +240,7 @@ func (p *Prop) Execute(c *sim.Case, env *sim.Env) *sim.Result {
 		var rd *reader.Reader
 		open := func() bool {
 			var err error
-			oc := sim.Guard(t, 50_000_000, func() error {
+			oc := sim.Guard(t, stepBudget, func() error {
 				rd, err = reader.Open(path)
 				return err
 			})
@@ -262,7 +270,7 @@ func (p *Prop) Execute(c *sim.Case, env *sim.Env) *sim.Result {
 			pg := st.Page
 			inRange := pg < len(model.Pages)
 			where := fmt.Sprintf("rev %d step %d %s(page %d)", rev, si, st.Op, pg)
-			call := func(f func() error) sim.Outcome { return sim.Guard(t, 50_000_000, f) }
+			call := func(f func() error) sim.Outcome { return sim.Guard(t, stepBudget, f) }
 			switch st.Op {
 			case "pagecount":
 				var n int
